@@ -86,11 +86,46 @@ UNITS.append(dict(name="c02_pdst_solve_flags", template="C02/pdst.c", mode="plai
                   canaries=[dict(name="flag_not_from_goal", where="body:solve", rx=r"bool isApproximate = !hasSolution \|\| !GOAL_SAT\(lastGoalMotion_, &closestDistanceToGoal\);", repl="bool isApproximate = !hasSolution; if (hasSolution) GOAL_SAT(lastGoalMotion_, &closestDistanceToGoal);"),
                             dict(name="closer_motion_not_recorded", where="body:solve", rx=r"(else if \(distanceToGoal < closestDistanceToGoal\)\s*\{\s*closestDistanceToGoal = distanceToGoal;)\s*lastGoalMotion_ = newMotion;", repl=r"\1")]))
 
+# ---------------------------------------------------------------- control::RRT::solve: one arbitrary iteration + path construction
+CRRTF = "src/ompl/control/planners/rrt/src/RRT.cpp"
+CRRT_RULES = [
+    (r"while \(ptc == false\)", "ONCE", 0),
+    (r"goal_s && rng_\.uniform01\(\) < goalBias_ && goal_s->canSample\(\)", "GOAL_BIAS()", 0), (r"goal_s->sampleGoal\(rstate\);", "WRITE_STATE(rstate);", 0), (r"sampler_->sampleUniform\(rstate\);", "WRITE_STATE(rstate);", 0),
+    (r"Motion \*nmotion = nn_->nearest\(rmotion\);", "Motion nmotion = NEAREST();", 0),
+    (r"controlSampler_->sampleTo\(rctrl, nmotion->control, nmotion->state, rmotion->state\)", "SAMPLE_TO(rctrl, M_ctrl[nmotion], M_state[nmotion], M_state[rmotion])", 0),
+    (r"std::vector<base::State \*> pstates;", "pstates_n = 0;", 0), (r"siC_->propagateWhileValid\(nmotion->state, rctrl, cd, pstates, true\)", "PROPAGATE_WHILE_VALID(M_state[nmotion], rctrl, cd)", 0),
+    (r"siC_->getMinControlDuration\(\)", "MIN_DURATION", 0), (r"pstates\.size\(\)", "pstates_n", 0),
+    (r"auto \*motion = new Motion\(\);", "Motion motion = NEW_MOTION_EMPTY();", 0), (r"auto \*motion = new Motion\(siC_\);", "Motion motion = NEW_MOTION_ALLOC();", 0),
+    (r"motion->state = pstates\[p\];", "M_state[motion] = TAKE_PSTATE(p);", 0), (r"motion->control = siC_->allocControl\(\);", "M_ctrl[motion] = ALLOC_CONTROL();", 0),
+    (r"for \(auto &pstate : pstates\)\s*si_->freeState\(pstate\);", "for (size_t q_ = 0; q_ < pstates_n; ++q_) FREE_STATE(PSTATE_AT(q_));", 0), (r"pstates\[p\]", "PSTATE_AT(p)", 0),
+    (r"Motion \*(\w+) = ", r"Motion \1 = ", 0), (r"std::vector<Motion \*> mpath;", "VEC(mpath);", 0), (r"mpath\.push_back\(solution\);", "PUSH(mpath, solution);", 0), (r"mpath\.size\(\)", "(int)mpath_n", 0),
+    (r"(\w+(?:\[\w+\])?)->steps\b", r"STEPS[\1]", 0), (r"(\w+(?:\[\w+\])?)->parent\b", r"PARENT[\1]", 0), (r"(\w+(?:\[\w+\])?)->state\b", r"M_state[\1]", 0), (r"(\w+(?:\[\w+\])?)->control\b", r"M_ctrl[\1]", 0),
+    (r"siC_->copyControl\(", "COPY_CONTROL(", 0), (r"si_->copyState\(", "COPY_STATE(", 0), (r"si_->freeState\(", "FREE_STATE(", 0), (r"nn_->add\(motion\);", "NN_ADD(motion);", 0),
+    (r"goal->isSatisfied\(M_state\[motion\], &dist\)", "GOAL_SAT(M_state[motion], &dist)", 0), (r"(\w+) (==|!=) nullptr", r"\1 \2 NIL", 0),
+    (r"auto path\(std::make_shared<PathControl>\(si_\)\);", "", 0),
+    (r"path->append\(M_state\[(\w+\[\w+\])\], M_ctrl\[(\w+\[\w+\])\], STEPS\[(\w+\[\w+\])\] \* siC_->getPropagationStepSize\(\)\);", r"PATH_APPEND3(\1, \2, \3);", 0),
+    (r"path->append\(M_state\[(\w+\[\w+\])\]\);", r"PATH_APPEND1(\1);", 0), (r"pdef_->addSolutionPath\(path, approximate, approxdif, getName\(\)\);", "ADD_SOLUTION(approximate, approxdif);", 0),
+    (r"^", "{ ", 0), (r"$", " return solved ? (approximate ? 2 : 1) : 0; }", 0),
+]
+CRRT_SRC = [dict(name="iteration", file=CRRTF, begin=r"while \(ptc == false\)\s*\{\s*if \(goal_s && rng_\.uniform01\(\)", end=r"bool solved = false;\s*bool approximate = false;\s*if \(solution == nullptr\)", rules=[r for r in CRRT_RULES if r[0] not in (r"$", r"^")], loops={"allow_uncontracted": True}),
+            dict(name="path", file=CRRTF, begin=r"bool solved = false;\s*bool approximate = false;\s*if \(solution == nullptr\)", end=r"if \(rmotion->state\)\s*si_->freeState\(rmotion->state\);", rules=CRRT_RULES, wrap_braces=False, loops={"allow_uncontracted": True})]
+CFL = ["--bounds-check", "--pointer-check", "--signed-overflow-check", "--conversion-check"]
+UNITS.append(dict(name="c02_rrt_iteration", template="C02/crrt.c", mode="plain", entry="h_crrt_iteration", flags=CFL, unwind=14, level="bounded", backend="minisat", timeout=900, sources=CRRT_SRC,
+                  bound="<= 3 propagation steps requested per iteration (the tree and the iteration are arbitrary: inductive step)", functions=["ompl::control::RRT::solve (body of the planning loop, one arbitrary iteration from an arbitrary tree; <= 3 states per propagateWhileValid call)"],
+                  canaries=[dict(name="steps_of_the_request_not_of_the_result", where="body:iteration", rx=r"STEPS\[motion\] = cd;", repl="STEPS[motion] = cd + 1;"),
+                            dict(name="leaks_states_after_the_goal", where="body:iteration", rx=r"while \(\+\+p < pstates_n\)\s*FREE_STATE\(PSTATE_AT\(p\)\);", repl=""),
+                            dict(name="wrong_parent_for_intermediate_states", where="body:iteration", rx=r"PARENT\[motion\] = lastmotion;", repl="PARENT[motion] = nmotion;")]))
+UNITS.append(dict(name="c02_rrt_path_construction", template="C02/crrt.c", mode="plain", entry="h_crrt_path", flags=CFL, unwind=14, level="bounded", bound="branches of <= 5 motions", backend="minisat", timeout=600, sources=CRRT_SRC,
+                  functions=["ompl::control::RRT::solve (solution path construction)"],
+                  canaries=[dict(name="approximate_flag_dropped", where="body:path", rx=r"approximate = true;", repl="")]))
+
 ASSUMPTIONS = ["the user's state propagator and validity checker are deterministic callbacks; states/controls are abstract objects with ghost counters",
-               "bounded: |steps| <= 4, at most 3 control samples; control dimension <= 64", "RNG contract uniformReal in [a,b)"]
+               "bounded: |steps| <= 4, at most 3 control samples; control dimension <= 64", "RNG contract uniformReal in [a,b)",
+               "planner fragments: motions/states/controls are references with ghost content ids; the goal, samplers and propagators are arbitrary"]
 TRUSTED = ["extraction rewrite tables of units/C02.py", "stubs/harness code in units/C02/*.c", "CBMC 6.11"]
-NOT_COVERED = ["that each control planner (RRT, SST, EST, KPIECE, PDST, Syclop) assembles its PathControl from (state, control, steps*stepSize) of its motions, marks approximate solutions correctly and reaches the goal (planner solve() bodies are not under contract)",
-               "the vector-result overload of propagateWhileValid, PathControl::check/interpolate"]
+NOT_COVERED = ["control planners other than RRT (loop body + path construction), SST (solution record + path construction) and PDST (flag logic): EST, KPIECE, Syclop, LTL; their PathControl assembly and approximate marking",
+               "control::RRT: the start-state loop and the contracts assumed for DirectedControlSampler::sampleTo and the vector overload of propagateWhileValid (they RECORD what they propagated; that the record is true is the C02 unit on propagateWhileValid/getBestControl for the scalar overload only)",
+               "PathControl::check/interpolate"]
 
 MISC_CPPS = ['src/ompl/control/src/SpaceInformation.cpp', 'src/ompl/control/src/SimpleDirectedControlSampler.cpp', 'src/ompl/control/spaces/src/RealVectorControlSpace.cpp']
 NATIVE = [
